@@ -303,6 +303,13 @@ func (env *specEnv) tr(x ast.Expr) (string, types.Type, error) {
 				}
 			}
 		}
+		if id, ok := n.X.(*ast.Ident); ok {
+			if b, ok := env.ident(id.Name); ok && b.ptr != nil {
+				if pt, ok := b.typ.Underlying().(*types.Pointer); ok {
+					return env.field(e.load(env.cur, b.ptr), pt.Elem(), n.Sel.Name)
+				}
+			}
+		}
 		xt, ty, err := env.tr(n.X)
 		if err != nil {
 			return "", nil, err
@@ -322,6 +329,13 @@ func (env *specEnv) tr(x ast.Expr) (string, types.Type, error) {
 			return xt, ty, nil
 		}
 	case *ast.StarExpr:
+		if id, ok := n.X.(*ast.Ident); ok {
+			if b, ok := env.ident(id.Name); ok && b.ptr != nil {
+				if pt, ok := b.typ.Underlying().(*types.Pointer); ok {
+					return e.load(env.cur, b.ptr), pt.Elem(), nil
+				}
+			}
+		}
 		xt, ty, err := env.tr(n.X)
 		if err != nil {
 			return "", nil, err
@@ -709,7 +723,7 @@ func (env *specEnv) call(n *ast.CallExpr) (string, types.Type, error) {
 			return fmt.Sprintf("(forall ((%s Int)) %s)", bv, implies(rng, body)), tBool, nil
 		}
 		return fmt.Sprintf("(exists ((%s Int)) %s)", bv, and(rng, body)), tBool, nil
-	case "forallint", "existsint", "forallstr":
+	case "forallint", "existsint", "forallstr", "forallreal":
 		// forallint(v1, ..., vn, [pattern(t1, ..., tk),] body); forallstr binds string-sorted variables
 		if len(n.Args) < 2 {
 			return "", nil, fmt.Errorf("%s(vars..., [pattern(...),] body)", fname)
@@ -727,6 +741,9 @@ func (env *specEnv) call(n *ast.CallExpr) (string, types.Type, error) {
 			if fname == "forallstr" {
 				env2 = env2.with(id.Name, binding{term: bv, typ: types.Typ[types.String]})
 				decls = append(decls, "("+bv+" Str)")
+			} else if fname == "forallreal" {
+				env2 = env2.with(id.Name, binding{term: bv, kind: "real"})
+				decls = append(decls, "("+bv+" Real)")
 			} else {
 				env2 = env2.with(id.Name, binding{term: bv, kind: "int"})
 				decls = append(decls, "("+bv+" Int)")
@@ -932,6 +949,11 @@ func (env *specEnv) call(n *ast.CallExpr) (string, types.Type, error) {
 			sum = wrapTo(types.Typ[kinds[nb]], sum)
 		}
 		return sum, tInt, nil
+	case "oldtop": // oldtop(): first address not yet allocated in the pre-state
+		if env.pre == nil {
+			return "", nil, fmt.Errorf("oldtop() needs a pre-state")
+		}
+		return e.get(env.pre, "heapTop"), tInt, nil
 	case "fresh": // fresh(s): the slice/pointer was allocated after the pre-state
 		if env.pre == nil {
 			return "", nil, fmt.Errorf("fresh() needs a pre-state")
